@@ -124,6 +124,37 @@ impl LowRankMassMatrixStrategy {
     }
 }
 
+/// Verification hook H5 (compiled only with `--cfg nuts_rs_verif`): the estimate the strategy computes for
+/// an explicit window of draws and gradients (`compute_update` on a strategy holding exactly these
+/// points). Returns (stds, mean, eigenvalues, mu) or None when the estimate is rejected. Read-only.
+#[cfg(nuts_rs_verif)]
+pub fn verif_estimate(
+    settings: LowRankSettings,
+    draws: &[Vec<f64>],
+    grads: &[Vec<f64>],
+) -> Option<(Vec<f64>, Vec<f64>, Vec<f64>, Vec<f64>)> {
+    let ndim = draws.first()?.len();
+    let mut strategy = LowRankMassMatrixStrategy::new(ndim, settings);
+    for (d, g) in draws.iter().zip(grads.iter()) {
+        strategy.draws.push_back(d.clone());
+        strategy.grads.push_back(g.clone());
+    }
+    let n = strategy.draws.len();
+    let mut dm: Mat<f64> = Mat::zeros(ndim, n);
+    let mut gm: Mat<f64> = Mat::zeros(ndim, n);
+    for (i, (d, g)) in strategy.draws.iter().zip(strategy.grads.iter()).enumerate() {
+        dm.col_as_slice_mut(i).copy_from_slice(&d[..]);
+        gm.col_as_slice_mut(i).copy_from_slice(&g[..]);
+    }
+    let (stds, mean, vals, _vecs, mu) = strategy.compute_update(dm, gm)?;
+    Some((
+        stds.iter().copied().collect(),
+        mean.iter().copied().collect(),
+        vals.iter().copied().collect(),
+        mu.iter().copied().collect(),
+    ))
+}
+
 /// Rescale draws and gradients in-place and return the parameters of that transformation.
 ///
 /// **Step 1 — diagonal rescaling:**
